@@ -39,6 +39,14 @@ def regressions():
                             "3": {"ret": True, "ops": [{"op": "remove", "cb": 4}]}, "4": {"ret": True, "ops": []}},
                 "ops": [{"t": 0, "op": "add", "cb": 1, "delta": 10000}, {"t": 1, "op": "add", "cb": 2, "delta": 10000},
                         {"t": 2, "op": "add", "cb": 3, "delta": 10000}, {"t": 3, "op": "add", "cb": 4, "delta": 10000}], "dur": 100000})
+    # overrun: a slow one-shot holds the job thread for more than two periods of a periodic timer, which must
+    # afterwards be back on its grid (registration + k * delta), not re-anchored
+    out.append({"scripts": {"1": {"ret": True, "ops": []}, "2": {"ret": False, "ops": [], "busy": 400000}},
+                "ops": [{"t": 0, "op": "add", "cb": 1, "delta": 200000}, {"t": 5, "op": "add", "cb": 2, "delta": 300000}],
+                "dur": 2000000, "slack": 400000})
+    out.append({"scripts": {"1": {"ret": True, "ops": [], "busy": 25000}, "2": {"ret": True, "ops": []}},
+                "ops": [{"t": 0, "op": "add", "cb": 1, "delta": 100000}, {"t": 7, "op": "add", "cb": 2, "delta": 3000}],
+                "dur": 300000, "slack": 25000})
     return out
 
 
@@ -77,7 +85,18 @@ def history(seed):
             ops.append({"t": t, "op": "unsub", "cb": cb})
         else:
             ops.append({"t": t, "op": "msg"})
-    return {"scripts": scripts, "ops": ops, "dur": rng.choice([10000, 300000, 3500000, 7000000]), "seed": seed}
+    sc = {"scripts": scripts, "ops": ops, "dur": rng.choice([10000, 300000, 3500000, 7000000]), "seed": seed}
+    if rng.random() < 0.25:
+        # one slow callback (registered by one call only): other timers overrun while it runs
+        adds = [o for o in ops if o["op"] == "add"]
+        if adds:
+            k = str(rng.choice(adds)["cb"])
+            if sum(1 for o in adds if str(o["cb"]) == k) == 1 and not any(str(x["cb"]) == k for v in scripts.values() for x in v["ops"]):
+                d = [o for o in adds if str(o["cb"]) == k][0]["delta"]
+                busy = rng.choice([d // 3, 2 * d + 7, 5 * d + 11]) if not scripts[k]["ret"] else d // 3
+                scripts[k]["busy"] = busy
+                sc["slack"] = busy
+    return sc
 
 
 def bounded(sc):
